@@ -265,6 +265,8 @@ func TestRouterConcurrentFirstGet(t *testing.T) {
 			t.Fatalf("%s: change callbacks %+v, want exactly one Auto commit of %v", mode, changes, committed)
 		}
 		lib.Ev.Class("firstget:" + mode)
-		lib.Ev.Case(fmt.Sprintf("firstget|%s|%d", mode, len(results)), func() any { return fmt.Sprintf("concurrent first Get via %s, %d callers, factory ran %d times", mode, len(results), made) })
+		lib.Ev.Case(fmt.Sprintf("firstget|%s|%d", mode, len(results)), func() any {
+			return fmt.Sprintf("concurrent first Get via %s, %d callers, factory ran %d times", mode, len(results), made)
+		})
 	})
 }
